@@ -288,6 +288,10 @@ func Consensus(trees <-chan Trees, cutoff float64) (*Tree, error) {
 			return nil, curtree.Err
 		}
 
+		// The two branches connected to the root of a rooted tree define the
+		// same bipartition, which must be counted only once for this tree
+		curtree.Tree.UnRoot()
+
 		if err = curtree.Tree.ReinitIndexes(); err != nil {
 			return nil, err
 		}
